@@ -96,7 +96,8 @@ fn render_enum(it: &Value) -> Vec<String> {
 
 const KEY_PRELUDE: &str = "module M\ncompact struct CsOk { a: int32, b: string }\ncompact struct CsBad { a: float64 }\ncompact struct CsNestedBad { a: CsBad }\n\
 compact struct CsNestedOk { a: CsOk }\nstruct S { a: int32 }\nenum EU : uint8 { A }\nenum EN { A }\ncustom Cu\ntypealias AliasInt = int32\n\
-typealias AliasSeq = Sequence<int32>\ntypealias AliasS = S\ntypealias AliasCs = CsOk\n";
+typealias AliasSeq = Sequence<int32>\ntypealias AliasS = S\ntypealias AliasCs = CsOk\ncompact struct CsOptField { a: int32, b: string? }\n\
+compact struct CsSeqField { a: Sequence<int32> }\ncompact struct CsEnumField { a: EU, b: Cu }\n";
 
 fn render_key(it: &Value) -> Vec<String> {
     let k = &it["key"];
@@ -107,6 +108,9 @@ fn render_key(it: &Value) -> Vec<String> {
             "cs_bad" => "CsBad",
             "cs_nested_bad" => "CsNestedBad",
             "cs_nested_ok" => "CsNestedOk",
+            "cs_optfield" => "CsOptField",
+            "cs_seqfield" => "CsSeqField",
+            "cs_enumfield" => "CsEnumField",
             "s" => "S",
             "e_u" => "EU",
             "e_n" => "EN",
